@@ -212,7 +212,8 @@ class Gen:
         out = []
         for s in sigs(prop):
             n = s.split(" ", 1)[0]
-            if re.search(r"Loop|Outer|counterexample", n) or (skip and re.search(skip, n)) or (only and not re.search(only, n)):
+            # negative statements (`theorem … : ¬ …`, e.g. "the code before the fix does not satisfy …") have no safety face
+            if re.search(r"Loop|Outer|counterexample|_excludes_", n) or re.search(r":\s*¬", s.split(":=")[0][:len(n) + 8]) or (skip and re.search(skip, n)) or (only and not re.search(only, n)):
                 continue
             c = self.corollary(prop, dom, suffix, s, rename or {}, docs or {})
             if c:
